@@ -45,11 +45,14 @@ pub fn culprit_flags(bad: &[u8]) -> String {
 }
 
 pub fn run(ctx: &mut Ctx) {
-    let total = ctx.sz(160, 3200);
+    let total = ctx.sz(4800, 48_000);
     let opts = GenOpts { union: 45, max_body: 4, bound_query: 40, agg: 20, rec: 35, ..GenOpts::default() };
+    // every third case is a small program (0-1 intermediate relations, 1-2 body atoms, few filters):
+    // complex programs mostly have empty answers, small ones exercise single operators with data flowing
+    let simple = GenOpts { max_idb: 1, max_body: 2, neg: 5, cmp: 10, agg: 10, arith: 10, union: 15, rec: 15, mutual: 0, bound_query: 10, ..GenOpts::default() };
     for k in ctx.cases(total) {
         let mut r = ctx.rng(k);
-        let p = gen_program(&mut r, &opts);
+        let p = gen_program(&mut r, if k % 2 == 0 { &simple } else { &opts });
         let Ok(model) = refdl::evaluate(&p.clauses, &p.edb, false) else { continue };
         let want = model.db.get("q").cloned().unwrap_or_default();
         ctx.evals(32);
